@@ -35,9 +35,11 @@
    merge_data, wakeup and invoke2 read flags that never change here), the +2 reference ledger
    (C17), QoS overrides (the max-qos bits follow DQState!MergeQos only).
 
-   Property C15 is stated on the ghost sequences `merged` (values in the order their atomic
-   update took effect) and `delivered` (values dispatch_source_get_data returned, in handler
-   order). *)
+   Property C15 is stated on the ghost record `g`, which summarises the values merged (in the
+   order their atomic update took effect) and the values dispatch_source_get_data returned (in
+   handler order): only what the laws of the source's kind need is kept (sums for ADD, unions
+   for OR, the set / the last value for REPLACE), so that histories the property cannot tell
+   apart are one state. *)
 EXTENDS DQState, Sequences, FiniteSets
 
 CONSTANTS Threads,        \* all threads (strings; a drain-lock owner is a thread)
@@ -60,19 +62,31 @@ VARIABLES cfg,            \* [kind, target] of this execution (never changes)
           tq,             \* entries of the source in its target queue
           holder,         \* serial target: the thread working on what it popped from it, or NULL
           pc, lv,         \* per thread: control point, locals
-          merged, delivered,   \* ghost (see above)
+          g,              \* ghost: summary of the values merged and delivered (see Ghost0)
           inH,            \* ghost: threads inside the event handler
           nmerge, nsusp,  \* ghost: merge_data / dispatch_suspend calls started
           held,           \* ghost: suspends returned minus resumes started
           actCalled       \* ghost: dispatch_activate has been called
 
-vars == <<cfg, st, pending, dsdata, installed, tq, holder, pc, lv, merged, delivered, inH, nmerge, nsusp, held, actCalled>>
+vars == <<cfg, st, pending, dsdata, installed, tq, holder, pc, lv, g, inH, nmerge, nsusp, held, actCalled>>
 
+\* m* : merged, d* : delivered.  Sum (add), Or (or), Set / Last / N (replace); zero: a handler saw 0;
+\* unmerged: a REPLACE handler saw a value nobody had merged
+Ghost0 == [mSum |-> 0, dSum |-> 0, mOr |-> 0, dOr |-> 0, mSet |-> {}, mN |-> 0, mLast |-> 0, dN |-> 0, dLast |-> 0,
+           zero |-> FALSE, unmerged |-> FALSE]
 L0 == [ret |-> "idle", v |-> 0, mk |-> FALSE, wkret |-> "idle", prev |-> 0, owned |-> Owned0]
 
 RECURSIVE BitOr(_, _)
 BitOr(a, b) == IF a = 0 THEN b ELSE IF b = 0 THEN a
                ELSE (IF a % 2 = 1 \/ b % 2 = 1 THEN 1 ELSE 0) + 2 * BitOr(a \div 2, b \div 2)
+\* ghost updates: a merge of v took effect / a handler invocation read v
+GMerge(v) == CASE cfg.kind = "add" -> [g EXCEPT !.mSum = @ + v]
+               [] cfg.kind = "or" -> [g EXCEPT !.mOr = BitOr(@, v)]
+               [] OTHER -> [g EXCEPT !.mSet = @ \cup {v}, !.mLast = v, !.mN = 1]
+GDeliver(v) == LET z == [g EXCEPT !.zero = (@ \/ v = 0)] IN
+               CASE cfg.kind = "add" -> [z EXCEPT !.dSum = @ + v]
+                 [] cfg.kind = "or" -> [z EXCEPT !.dOr = BitOr(@, v)]
+                 [] OTHER -> [z EXCEPT !.dLast = v, !.dN = 1, !.unmerged = (@ \/ v \notin g.mSet)]
 Apply(k, p, v) == CASE k = "add" -> p + v [] k = "or" -> BitOr(p, v) [] k = "replace" -> v
 ValsOf(k) == IF k = "replace" THEN ValsR ELSE Vals
 
@@ -80,12 +94,15 @@ Init == /\ cfg \in [kind : Kinds, target : Targets]
         /\ st = IF InitActive THEN Idle0 ELSE InactiveInit
         /\ pending = 0 /\ dsdata = 0 /\ installed = InitActive /\ tq = 0 /\ holder = NULL
         /\ pc = [t \in Threads |-> "idle"] /\ lv = [t \in Threads |-> L0]
-        /\ merged = <<>> /\ delivered = <<>> /\ inH = {} /\ nmerge = 0 /\ nsusp = 0 /\ held = 0
+        /\ g = Ghost0 /\ inH = {} /\ nmerge = 0 /\ nsusp = 0 /\ held = 0
         /\ actCalled = InitActive
 
 Go(t, l) == pc' = [pc EXCEPT ![t] = l]
 Root == cfg.target = "global"
-GHOST == <<merged, delivered, inH, nmerge, nsusp, held, actCalled>>
+\* entry of _dispatch_source_wakeup.  ds_is_installed only ever changes from false to true: once it is
+\* true its (plain) read is determined and is not a step of its own
+WkEntry == IF installed THEN "wk_pend" ELSE "wk_inst"
+GHOST == <<g, inH, nmerge, nsusp, held, actCalled>>
 DATA == <<pending, dsdata>>
 
 (* ========================= dispatch_source_merge_data ========================= *)
@@ -95,16 +112,14 @@ CallMerge(t, v) ==
     /\ (pc[t] = "idle" => t \in Mergers) /\ (pc[t] = "h_body" => HandlerMerges)
     /\ nmerge < MaxMerges /\ v \in ValsOf(cfg.kind)
     /\ lv' = [lv EXCEPT ![t].ret = pc[t], ![t].v = v] /\ Go(t, "m_upd") /\ nmerge' = nmerge + 1
-    /\ UNCHANGED <<cfg, st, DATA, installed, tq, holder, merged, delivered, inH, nsusp, held, actCalled>>
+    /\ UNCHANGED <<cfg, st, DATA, installed, tq, holder, g, inH, nsusp, held, actCalled>>
 \* os_atomic_add2o / os_atomic_or2o / os_atomic_store2o(dr, ds_pending_data, val, relaxed)
 MUpdate(t) ==
     /\ pc[t] = "m_upd"
-    /\ pending' = Apply(cfg.kind, pending, lv[t].v) /\ merged' = Append(merged, lv[t].v)
-    /\ lv' = [lv EXCEPT ![t].mk = (Mut # "wakeup_nodirty"), ![t].wkret = "m_ret"]     \* dx_wakeup(ds, 0, MAKE_DIRTY)
-    /\ Go(t, "wk_inst")
-    /\ UNCHANGED <<cfg, st, dsdata, installed, tq, holder, delivered, inH, nmerge, nsusp, held, actCalled>>
-MRet(t) == /\ pc[t] = "m_ret" /\ Go(t, lv[t].ret)
-           /\ UNCHANGED <<cfg, st, DATA, installed, tq, holder, lv, GHOST>>
+    /\ pending' = Apply(cfg.kind, pending, lv[t].v) /\ g' = GMerge(lv[t].v)
+    /\ lv' = [lv EXCEPT ![t].mk = (Mut # "wakeup_nodirty"), ![t].wkret = lv[t].ret]  \* dx_wakeup(ds, 0, MAKE_DIRTY), then return
+    /\ Go(t, WkEntry)
+    /\ UNCHANGED <<cfg, st, dsdata, installed, tq, holder, inH, nmerge, nsusp, held, actCalled>>
 
 (* ============================ _dispatch_source_wakeup ============================ *)
 \* if (!ds->ds_is_installed) tq = dkq (= TARGET, the source is direct)      (plain read)
@@ -126,15 +141,15 @@ WkRmw(t) == \E q \in 0..QW : WkRmwQ(t, q)
 (* ======================= dispatch_suspend / resume / activate ======================= *)
 CallSuspend(t) == /\ pc[t] = "idle" /\ t \in Mergers /\ nsusp < MaxSusp /\ nsusp' = nsusp + 1 /\ Go(t, "s_rmw")
                   /\ lv' = [lv EXCEPT ![t].ret = "idle"]
-                  /\ UNCHANGED <<cfg, st, DATA, installed, tq, holder, merged, delivered, inH, nmerge, held, actCalled>>
+                  /\ UNCHANGED <<cfg, st, DATA, installed, tq, holder, g, inH, nmerge, held, actCalled>>
 SuspRmw(t) == /\ pc[t] = "s_rmw"
               /\ LET r == Suspend(st) IN
                  IF r.ok THEN st' = r.s /\ held' = held + 1 /\ Go(t, "idle")
                          ELSE st' = st /\ held' = held /\ Go(t, "crash")     \* side-count path: not reachable below SCMAX
-              /\ UNCHANGED <<cfg, DATA, installed, tq, holder, lv, merged, delivered, inH, nmerge, nsusp, actCalled>>
+              /\ UNCHANGED <<cfg, DATA, installed, tq, holder, lv, g, inH, nmerge, nsusp, actCalled>>
 CallResume(t) == /\ pc[t] = "idle" /\ t \in Mergers /\ held > 0 /\ held' = held - 1
                  /\ lv' = [lv EXCEPT ![t].wkret = "idle", ![t].ret = "idle"] /\ Go(t, "r_rmw")
-                 /\ UNCHANGED <<cfg, st, DATA, installed, tq, holder, merged, delivered, inH, nmerge, nsusp, actCalled>>
+                 /\ UNCHANGED <<cfg, st, DATA, installed, tq, holder, g, inH, nmerge, nsusp, actCalled>>
 \* _dispatch_lane_resume(ds, false): is_source = true
 ResRmw(t) ==
     /\ pc[t] = "r_rmw"
@@ -142,12 +157,12 @@ ResRmw(t) ==
        /\ st' = r.s
        /\ CASE r.kind = "activate" -> Go(t, "a_inherit") /\ lv' = lv              \* _dispatch_lane_resume_activate
             [] r.kind \in {"still", "nowidth"} -> Go(t, lv[t].wkret) /\ lv' = lv
-            [] r.kind \in {"locked", "wakeup"} -> Go(t, "wk_inst") /\ lv' = [lv EXCEPT ![t].mk = FALSE]   \* dx_wakeup(ds, qos, CONSUME_2)
+            [] r.kind \in {"locked", "wakeup"} -> Go(t, WkEntry) /\ lv' = [lv EXCEPT ![t].mk = FALSE]   \* dx_wakeup(ds, qos, CONSUME_2)
             [] OTHER -> Go(t, "crash") /\ lv' = lv                               \* over-resume
     /\ UNCHANGED <<cfg, DATA, installed, tq, holder, GHOST>>
 CallActivate(t) == /\ pc[t] = "idle" /\ t \in Mergers /\ ~actCalled /\ actCalled' = TRUE
                    /\ lv' = [lv EXCEPT ![t].wkret = "idle", ![t].ret = "idle"] /\ Go(t, "a_rmw")
-                   /\ UNCHANGED <<cfg, st, DATA, installed, tq, holder, merged, delivered, inH, nmerge, nsusp, held>>
+                   /\ UNCHANGED <<cfg, st, DATA, installed, tq, holder, g, inH, nmerge, nsusp, held>>
 \* _dispatch_lane_resume(ds, true)
 ActRmw(t) ==
     /\ pc[t] = "a_rmw"
@@ -202,10 +217,10 @@ LatchLd(w) == /\ pc[w] = "latch_ld" /\ lv' = [lv EXCEPT ![w].prev = pending] /\ 
 LatchSt(w) == /\ pc[w] = "latch_st" /\ pending' = 0 /\ AfterLatch(w, lv[w].prev)
               /\ UNCHANGED <<cfg, st, installed, tq, holder, lv, GHOST>>
 \* the callout: the handler reads dispatch_source_get_data
-HStart(w) == /\ pc[w] = "h_start" /\ delivered' = Append(delivered, dsdata) /\ inH' = inH \cup {w} /\ Go(w, "h_body")
-             /\ UNCHANGED <<cfg, st, DATA, installed, tq, holder, lv, merged, nmerge, nsusp, held, actCalled>>
+HStart(w) == /\ pc[w] = "h_start" /\ g' = GDeliver(dsdata) /\ inH' = inH \cup {w} /\ Go(w, "h_body")
+             /\ UNCHANGED <<cfg, st, DATA, installed, tq, holder, lv, nmerge, nsusp, held, actCalled>>
 HEnd(w) == /\ pc[w] = "h_body" /\ inH' = inH \ {w} /\ Go(w, "i2_after")
-           /\ UNCHANGED <<cfg, st, DATA, installed, tq, holder, lv, merged, delivered, nmerge, nsusp, held, actCalled>>
+           /\ UNCHANGED <<cfg, st, DATA, installed, tq, holder, lv, g, nmerge, nsusp, held, actCalled>>
 \* if (avoid_starvation && os_atomic_load2o(dr, ds_pending_data, relaxed)) retq = ds->do_targetq
 I2After(w) == /\ pc[w] = "i2_after" /\ Go(w, IF pending # 0 THEN "d_finish" ELSE "d_unlock")
               /\ UNCHANGED <<cfg, st, DATA, installed, tq, holder, lv, GHOST>>
@@ -230,7 +245,7 @@ DFinish(w) ==
 
 (* ================================ next-state ================================ *)
 Call(t) == (\E v \in ValsOf(cfg.kind) : CallMerge(t, v)) \/ CallSuspend(t) \/ CallResume(t) \/ CallActivate(t)
-Lib(t) == \/ MUpdate(t) \/ MRet(t) \/ WkInst(t) \/ WkPend(t) \/ WkRmw(t)
+Lib(t) == \/ MUpdate(t) \/ WkInst(t) \/ WkPend(t) \/ WkRmw(t)
           \/ SuspRmw(t) \/ ResRmw(t) \/ ActRmw(t) \/ AInherit(t) \/ (\E b \in BOOLEAN : AInstall(t, b))
           \/ DLock(t) \/ I2Install(t) \/ I2Susp(t) \/ I2Pend(t) \/ Latch(t) \/ LatchLd(t) \/ LatchSt(t)
           \/ HStart(t) \/ HEnd(t) \/ I2After(t) \/ DUnlock(t) \/ DXor(t) \/ DFinish(t)
@@ -243,49 +258,43 @@ FairSpec == /\ Spec /\ \A t \in Threads : WF_vars(Lib(t))
             /\ WF_vars(\E t \in Mergers : CallResume(t)) /\ WF_vars(\E t \in Mergers : CallActivate(t))
 
 (* ================================ properties (C15) ================================ *)
-RECURSIVE SumSeq(_), OrSeq(_)
-SumSeq(s) == IF s = <<>> THEN 0 ELSE Head(s) + SumSeq(Tail(s))
-OrSeq(s) == IF s = <<>> THEN 0 ELSE BitOr(Head(s), OrSeq(Tail(s)))
-Range(s) == {s[i] : i \in 1..Len(s)}
 SubMask(a, b) == BitOr(a, b) = b
-LastOf(s) == s[Len(s)]
 
 TypeOK == /\ pending \in Nat /\ dsdata \in Nat /\ tq \in Nat /\ installed \in BOOLEAN
-          /\ pc \in [Threads -> {"idle", "m_upd", "m_ret", "wk_inst", "wk_pend", "wk_rmw", "s_rmw", "r_rmw", "a_rmw",
+          /\ pc \in [Threads -> {"idle", "m_upd", "wk_inst", "wk_pend", "wk_rmw", "s_rmw", "r_rmw", "a_rmw",
                                  "a_inherit", "a_install", "crash"} \cup DrainPcs]
 Quiescent == (\A t \in Threads : pc[t] = "idle") /\ tq = 0 /\ ~Suspended(st)
 
 \* ADD: at every moment the delivered values sum to at most what was merged; equal at quiescence
-AddNoExcess == cfg.kind = "add" => SumSeq(delivered) <= SumSeq(merged)
-AddConserved == (cfg.kind = "add" /\ Quiescent) => SumSeq(delivered) = SumSeq(merged)
+AddNoExcess == cfg.kind = "add" => g.dSum <= g.mSum
+AddConserved == (cfg.kind = "add" /\ Quiescent) => g.dSum = g.mSum
 \* OR: the union delivered is a subset of the union merged; equal at quiescence
-OrSubset == cfg.kind = "or" => SubMask(OrSeq(delivered), OrSeq(merged))
-OrConserved == (cfg.kind = "or" /\ Quiescent) => OrSeq(delivered) = OrSeq(merged)
+OrSubset == cfg.kind = "or" => SubMask(g.dOr, g.mOr)
+OrConserved == (cfg.kind = "or" /\ Quiescent) => g.dOr = g.mOr
 \* REPLACE: every delivered value was merged; a final non-zero merge is the last value delivered
-ReplMerged == cfg.kind = "replace" => Range(delivered) \subseteq Range(merged)
-ReplLast == (cfg.kind = "replace" /\ Quiescent /\ merged # <<>> /\ LastOf(merged) # 0)
-               => (delivered # <<>> /\ LastOf(delivered) = LastOf(merged))
+ReplMerged == cfg.kind = "replace" => ~g.unmerged
+ReplLast == (cfg.kind = "replace" /\ Quiescent /\ g.mN > 0 /\ g.mLast # 0) => (g.dN > 0 /\ g.dLast = g.mLast)
 \* a handler invocation never reports zero
-NeverZero == 0 \notin Range(delivered)
+NeverZero == ~g.zero
 \* the event handler is never running on two threads at once
 NoReentry == Cardinality(inH) <= 1
 \* nothing is stranded: at rest (resumed, activated) no data is pending and the word is idle
 NoStrand == Quiescent => (pending = 0 /\ [st EXCEPT !.dirty = FALSE, !.qos = 0, !.ro = FALSE] = Idle0)
 \* structure: the source sits at most once in its target queue, only while ENQUEUED and not being drained;
 \* whoever is inside invoke2 owns the drain lock; width accounting never borrows
-InDrain(w) == pc[w] \in DrainPcs \/ (pc[w] \in {"m_upd", "m_ret", "wk_inst", "wk_pend", "wk_rmw"} /\ lv[w].ret = "h_body")
+InDrain(w) == pc[w] \in DrainPcs \/ (pc[w] \in {"m_upd", "wk_inst", "wk_pend", "wk_rmw"} /\ lv[w].ret = "h_body")
 TqBound == tq <= 1 /\ (tq = 1 => st.enq)
 LockHeld == \A w \in Threads : InDrain(w) => (st.owner = w /\ st.ib /\ st.used = 1)
 OwnedOK == \A w \in Threads : pc[w] \in {"d_unlock", "d_finish"} => SubOk(st, lv[w].owned)
 NoCrash == \A t \in Threads : pc[t] # "crash"
 \* exact accounting of ADD (stronger than the property: where every merged unit is at each moment)
 AddExact == cfg.kind = "add" =>
-    SumSeq(merged) = SumSeq(delivered) + pending + (IF \E w \in Threads : pc[w] = "h_start" THEN dsdata ELSE 0)
+    g.mSum = g.dSum + pending + (IF \E w \in Threads : pc[w] = "h_start" THEN dsdata ELSE 0)
 
 \* liveness: merges made while suspended / inactive / while the handler runs are delivered afterwards
 Conserved == /\ pending = 0
-             /\ cfg.kind = "add" => SumSeq(delivered) = SumSeq(merged)
-             /\ cfg.kind = "or" => OrSeq(delivered) = OrSeq(merged)
-             /\ (cfg.kind = "replace" /\ merged # <<>> /\ LastOf(merged) # 0) => (delivered # <<>> /\ LastOf(delivered) = LastOf(merged))
+             /\ cfg.kind = "add" => g.dSum = g.mSum
+             /\ cfg.kind = "or" => g.dOr = g.mOr
+             /\ (cfg.kind = "replace" /\ g.mN > 0 /\ g.mLast # 0) => (g.dN > 0 /\ g.dLast = g.mLast)
 Live == <>[]Conserved
 =============================================================================
